@@ -227,7 +227,8 @@ class Array:
                 self.data[start * self._dtype.bitlength: stop * self._dtype.bitlength] = new_data
                 return
             items_in_slice = len(range(start, stop, step))
-            if not isinstance(value, Sized):
+            if not isinstance(value, Sized) or value is self:
+                # Take a snapshot: when assigning the Array to a slice of itself the items must be read before any are overwritten.
                 value = list(value)
             if len(value) == items_in_slice:
                 for s, v in zip(range(start, stop, step), value):
